@@ -4,6 +4,7 @@ from __future__ import annotations
 
 # Standard Library Imports
 from abc import ABCMeta, abstractmethod
+from math import fabs
 from typing import TYPE_CHECKING
 
 # Third Party Imports
@@ -115,6 +116,8 @@ class ScheduledFiniteThrust(ContinuousStateChangeEvent, metaclass=ABCMeta):
         self.start_time = start_time
         self.end_time = end_time
         self.agent_id = agent_id
+        self.thrusting = False
+        """``bool``: whether the thrust is currently switched on, i.e. integration is inside the thrust interval."""
 
     def __call__(self, time: ScenarioTime, state: ndarray):
         """When this function returns zero during integration, it interrupts the integration process.
@@ -126,7 +129,9 @@ class ScheduledFiniteThrust(ContinuousStateChangeEvent, metaclass=ABCMeta):
         _fval = self.end_time - time
         if fpe_equals(_ival, 0.0) or fpe_equals(_fval, 0.0):
             return 0.0
-        return _ival
+        # [NOTE]: While thrusting, the integrator has to stop at the end of the interval to switch
+        #   the thrust off again; otherwise it has to stop at the start of the interval.
+        return _fval if self.thrusting else _ival
 
     def __eq__(self, other: ScheduledFiniteThrust):
         """Check for equality between maneuver events.
@@ -157,10 +162,14 @@ class ScheduledFiniteThrust(ContinuousStateChangeEvent, metaclass=ABCMeta):
         See Also:
             :meth:`.ContinuousStateChangeEvent.getStateChangeCallback()`
         """
-        if fpe_equals(self.end_time - time, 0.0):
+        # [NOTE]: the integrator locates the end of the interval by root finding, so `time` is only
+        #   equal to the end time within the root finder's tolerance.
+        if fabs(self.end_time - time) <= 1e-12 * max(1.0, fabs(self.end_time)):
             EventStack.pushEvent(EventRecord(f"Finite thrust ended at {time}", self.agent_id))
+            self.thrusting = False
             return None
         EventStack.pushEvent(EventRecord(f"Finite thrust at {time}", self.agent_id))
+        self.thrusting = True
         return self.thrust_func
 
 
